@@ -727,6 +727,15 @@ def run_literals(chk, sw):
 #  quote     the closing quote of a string literal is removed where the rest of the *line* contains neither that
 #            quote character nor a backslash: the literal now runs into the line terminator or the end of input,
 #            which StringLiteral does not admit (no LineContinuation is possible without a backslash).
+#            The same mutant with further lines appended that contain that quote character again (in a comment, in a
+#            string of the other quote kind, ...) stays invalid: what follows the line terminator cannot close it.
+#  string-break / string-unclosed  (run_reject_strings) a literal built element by element (raw characters and complete
+#            escape sequences, so the element before the break never is a lone backslash) with a raw LF, CR or CRLF
+#            between two elements, or without its closing quote before the end of the line; the opening quote stands
+#            where a token starts, StringLiteral is the only token starting with a quote, and its characters exclude
+#            LF and CR except in a LineContinuation (backslash directly before).  Whatever follows - a closing quote on
+#            a later line, quotes in comments, other literals - is irrelevant.  U+2028 / U+2029 at the same places are
+#            string characters since ES2019: those literals are accepted and contain the character (judged as spellings).
 #  comment   a block comment is appended / inserted without its `*/` and no `*/` occurs later in the text: a
 #            MultiLineComment needs the terminator.
 #  regex     the closing `/` of a regular expression literal is removed where the rest of the line contains no `/`:
@@ -846,6 +855,7 @@ def mutants_from_tokens(rnd, toks, nonl, marks, own):
         if q in rest or "\\" in rest:
             continue
         out.append(("quote " + q, full[:end - 1] + full[end:]))
+        out.append(("quote+later-quote " + q, full[:end - 1] + full[end:] + later_quote(rnd, q, nl)))
         break
     regs = [i for i, t in enumerate(T) if E.tok_kind(t) == "regex"]
     rnd.shuffle(regs)
@@ -898,6 +908,112 @@ def judge_reject(acc, kind, src, origin):
         return False
     acc.viol("reject|%s|%s" % (kind, r[1] if len(r) > 1 else r[0]), case, "JSSyntaxError", list(r)[:3], "reject")
     return False
+
+
+def later_quote(rnd, q, nl):
+    """Further lines containing the quote character q an odd number of times outside any literal of kind q."""
+    o = "'" if q == '"' else '"'
+    return nl + rnd.choice((
+        "// say %shi" % q, "/* the 5.25%s disk */" % q, "var t_ = %sit%ss%s;" % (o, q, o), "var r_ = /%s/;" % q,
+        "// %s%s%s" % (q, nl, "var t_ = %sdef%s;" % (q, q)), "var t_ = 1; // %s %s %s" % (q, o, q),
+    )) + rnd.choice(("", nl, nl + "t_"))
+
+
+# string literals broken by a raw line terminator / left open on their line, with every quote parity afterwards
+
+LT_NAMES = {"\n": "LF", "\r": "CR", "\r\n": "CRLF", "\u2028": "LS", "\u2029": "PS"}
+STR_PREFIXES = [("var s = ", ";"), ("", ";"), ("", ""), ("x = [", "];"), ("f(", ");"), ("var o = {k: ", "};"), ("s = %(o)sz%(o)s + ", ";"),
+                ("var z = %(q)sok%(q)s;%(nl)svar s = ", ";"), ("/* %(o)s */ s = ", ";"), ("if (a) { s = ", "; }")]
+# (text after the statement, number of q characters in it, starts on the same line)
+STR_TAILS = [
+    ("", 0), (" // say %(q)shi", 1), ("%(nl)s// don%(q)st", 1), ("%(nl)s/* the 5.25%(q)s disk */", 1), ("%(nl)svar t = %(o)sit%(q)ss%(o)s;", 1),
+    ("%(nl)svar t = %(q)sdef%(q)s;", 2), ("%(nl)svar r = /%(q)s/;", 1), ("%(nl)svar t = %(q)sa\\%(q)sb%(q)s;", 3),
+    ("%(nl)svar t = 1; // %(q)s%(nl)svar u = 2; /* %(q)s */", 2), ("%(nl)st = %(q)s%(q)s + %(q)s%(q)s;", 4),
+    ("%(nl)s// %(q)s%(nl)svar t = %(q)sdef%(q)s;", 3), ("%(nl)svar hi = 1;%(nl)s// say %(q)shi%(nl)svar t = 2;%(nl)shi", 1),
+    ("%(nl)s%(q)s", 1), ("%(nl)s%(q)s;", 1), (" %(q)s", 1),
+]
+_PLAIN = list("abcXYZ019 _-+*=<>()[]{};:,.?!#@$") + ["é", "€"]
+_ESCV = _PLAIN + ["\\", "\n", "\r", "\t", "\0", "'", '"', "\u2028", "\U0001f600", "n", "u", "x"]
+
+
+def string_pieces(rnd, q, mode, cont):
+    """[(source text, value)] of the elements of a string literal body; every element is a raw character other
+    than the quote, the backslash and the line terminators, a complete escape sequence or (cont) a line continuation."""
+    o = "'" if q == '"' else '"'
+    n = rnd.choice((0, 1, 1, 2, 3, 4, 6))
+    out = []
+    if mode == "plain":
+        return [(c, c) for c in (rnd.choice(_PLAIN) for _ in range(n))]
+    if mode == "lookalike":
+        return [(c, c) for c in (rnd.choice((o, o, "//", "/*", "*/", "/", "a", " ", "${", "`")) for _ in range(max(n, 1)))]
+    vals = [rnd.choice(_ESCV) for _ in range(max(n, 1))]
+    for i, ch in enumerate(vals):
+        s, f = E.spell_char(rnd, ch, q, vals[i + 1] if i + 1 < len(vals) else None)
+        if out and out[-1][0] == "\\0" and s[:1].isdigit():
+            s = "\\x%02x" % ord(ch)
+        if "\u2028" in s or "\u2029" in s:
+            s = "\\u2028"
+            ch = "\u2028"
+        out.append((s, ch))
+    if not any(s.startswith("\\") for s, _ in out):
+        out[rnd.randrange(len(out))] = ("\\x41", "A")
+    if cont and rnd.random() < 0.3:
+        out.insert(rnd.randrange(len(out) + 1), (rnd.choice(("\\\n", "\\\r\n", "\\\r")), ""))
+    return out
+
+
+def task_reject_strings(task):
+    acc = Acc()
+    seed, sw = task
+    rnd = random.Random(seed)
+    for q in "'\"":
+        o = "'" if q == '"' else '"'
+        for lt in ("\n", "\r", "\r\n"):
+            for mode in ("plain", "escapes", "lookalike"):
+                for ti, (tail, nq) in enumerate(STR_TAILS):
+                    nl = rnd.choice(("\n", "\n", "\r\n", lt))
+                    env = {"q": q, "o": o, "nl": nl}
+                    pieces = string_pieces(rnd, q, mode, sw["continuation"])
+                    body = [s for s, _ in pieces]
+                    pre, clo = rnd.choice(STR_PREFIXES[:3] if rnd.random() < 0.5 else STR_PREFIXES)
+                    pre, tl = pre % env, tail % env
+                    # a literal broken across lines, at every element boundary
+                    for p in range(len(body) + 1):
+                        if p and body[p - 1].endswith("\r") and lt == "\n":
+                            continue  # backslash CR + LF is one line continuation
+                        src = pre + q + "".join(body[:p]) + lt + "".join(body[p:]) + q + clo + tl
+                        judge_reject(acc, "string-break %s" % LT_NAMES[lt], src, "string %s, tail %d (%d later quotes)" % (mode, ti, nq))
+                        acc.cls("reject string-break: later quotes " + ("even" if nq % 2 == 0 else "odd"))
+                    # a literal left open on its line (the rest of the line has no quote of that kind, no backslash)
+                    if not tail.startswith(" "):
+                        rest = rnd.choice((clo, clo, "", " + 1;", ")", " // c", " /* c */"))
+                        if not rest and body and body[-1].endswith("\r") and lt == "\n":
+                            rest = clo or ";"  # backslash CR + LF would be one line continuation
+                        tl2 = tl[len(nl):] if tl.startswith(nl) else tl
+                        src = pre + q + "".join(body) + rest + lt + tl2
+                        judge_reject(acc, "string-unclosed %s" % LT_NAMES[lt], src, "string %s, tail %d (%d later quotes)" % (mode, ti, nq))
+                        acc.cls("reject string-unclosed: later quotes " + ("odd" if nq % 2 == 0 else "even"))
+        # U+2028 / U+2029 are string characters (ES2019): same value as the escaped spelling
+        for lt in ("\u2028", "\u2029"):
+            for mode in ("plain", "escapes", "lookalike"):
+                pieces = string_pieces(rnd, q, mode, sw["continuation"])
+                for p in range(len(pieces) + 1):
+                    src = q + "".join(s for s, _ in pieces[:p]) + lt + "".join(s for s, _ in pieces[p:]) + q
+                    val = "".join(v for _, v in pieces[:p]) + lt + "".join(v for _, v in pieces[p:])
+                    acc.count += 1
+                    acc.cls("string raw %s between elements" % LT_NAMES[lt])
+                    acc.nontrivial.append(core.h16("s|" + src))
+                    g = evaluate(["(%s)" % src])[0]
+                    g = g[1] if g[0] == "value" else g
+                    if g != ["s", val]:
+                        acc.viol("literal|string|raw %s" % LT_NAMES[lt], {"sub": "string", "src": src, "value": val}, ["s", val], g, "literal")
+    return acc.pack()
+
+
+def run_reject_strings(chk, sw):
+    n = 3 if chk.tier == "quick" else 48
+    tasks = [(core.shard_seed(chk.seed, "C13", "reject-strings", s), sw) for s in range(n)]
+    merge(chk, pool.run(task_reject_strings, tasks, timeout=600), "reject-strings")
 
 
 SEED_PROGRAMS = [
@@ -1011,6 +1127,7 @@ def task_reject(task):
             if t.text[0] in rest or "\\" in rest:
                 continue
             judge_reject(acc, "quote " + t.text[0], src0[:t.end - 1] + src0[t.end:], origin)
+            judge_reject(acc, "quote+later-quote " + t.text[0], src0[:t.end - 1] + src0[t.end:] + later_quote(rnd, t.text[0], "\n"), origin)
             break
         rs = [t for t in tk if t.kind == "regex"]
         rnd.shuffle(rs)
@@ -1138,7 +1255,7 @@ def main(chk):
     import time
 
     for name, fn in (("prec", lambda: run_prec(chk)), ("layout+round", lambda: run_layout(chk, sw)),
-                     ("literal", lambda: run_literals(chk, sw)), ("reject", lambda: run_reject(chk))):
+                     ("literal", lambda: run_literals(chk, sw)), ("reject", lambda: run_reject(chk)), ("reject-strings", lambda: run_reject_strings(chk, sw))):
         t0 = time.time()  # reporting only, never part of a verdict
         fn()
         chk.extra["wall_s " + name] = round(time.time() - t0, 1)
